@@ -64,6 +64,7 @@ def check(v, tier, opts):
                                        nrand=10 if tier == "quick" else 30)
         log(f"[C01] translator validation: {n} concrete vectors agree between encoding and native code")
         family.run_family(v, E, "C01", NAMES, tier, shapes, opts)
+        family.elem_type_pass(v, E, "C01", NAMES, opts)
     finally:
         v.solver_time += E.solver.time
         v.engines["mir2smt"].update({"queries": E.solver.queries, "answers": E.solver.stats, "exec_s": round(E.exec_s, 1),
@@ -73,7 +74,10 @@ def check(v, tier, opts):
                     "min_periods in {omitted} U 0..=w; all 2^L null masks for L<=4, structured + seeded masks above; |x|<=100")
     v.assumptions += ["driver protocol of rolling_apply (C02)", "IsNone/Cast table rows for f64/Option<f64>/i32 (C15)",
                       "f64 arithmetic read as exact real arithmetic; sqrt as the non-negative real root"]
-    v.outside += ["size of accumulated rounding error", "values outside |x|<=100 (overflow to inf)",
+    v.bounds.append("element types: every operation is read over the reals, exact for f64 input; for integer element types the execution "
+                    "records every operation performed in the element type before the cast to f64 (none on the current tree) and z3 "
+                    "looks for i32 inputs that overflow it (L = 3, w = 2)")
+    v.outside += ["f32 inputs (rounding of operations performed in f32 before the cast)", "size of accumulated rounding error", "values outside |x|<=100 (overflow to inf)",
                   "ts_fdiff / ts_vfdiff: feature `fdiff` not in the pinned build; coefficients come from a C++ gamma function behind cxx FFI",
                   "f32 outputs (one extra rounding; the cast itself is C15)"]
     v.samples.append({"kernel": "ts_vstd", "shape": {"L": 5, "w": 3, "mp": None, "mask": "11111"},
